@@ -385,9 +385,9 @@ func LongReorgHistories(thorough bool) []*History {
 	}
 	var out []*History
 	// L1: n light headers on genesis, then ONE heavy sibling of the first (demotes n, promotes 1)
-	ns := []int{503}
+	ns := []int{503, 1003}
 	if thorough {
-		ns = append(ns, 101, 1003)
+		ns = append(ns, 101, 2005)
 	}
 	for _, n := range ns {
 		h := &History{}
